@@ -186,3 +186,16 @@ package route
 //@        && reMatch(schemas[k].Pattern.src, (len(md.Tags) == 0 ? bpart(f0, ";", 0) : bpart(f0, ";", 0) ++ ";" ++ sjoin(rawarr(md.Tags), md.Tags.off, len(md.Tags), ";")))
 //@        && (forall j int :: 0 <= j && j < k ==> !reMatch(schemas[j].Pattern.src, (len(md.Tags) == 0 ? bpart(f0, ";", 0) : bpart(f0, ";", 0) ++ ";" ++ sjoin(rawarr(md.Tags), md.Tags.off, len(md.Tags), ";"))))
 //@        && md.Interval == schemas[k].Retentions[0].secondsPerPoint)
+//@
+//@ // getSchemas only returns rule lists parseMetric can use: every rule has a retention, none has interval 0, a catch-all exists
+//@ func getSchemas(file string) (s persister.WhisperSchemas, err error)
+//@   property C16,C14
+//@   modifies *
+//@   ensures[usable; C16,C14] err == nil ==> usableSchemas(s) && (forall k int :: 0 <= k && k < len(s) ==> s[k].Retentions[0].secondsPerPoint != 0)
+//@   loop 1:
+//@     invariant[idx] 0 <= #i && #i <= len(#s) && #s == schemas
+//@     invariant[checked] forall k int :: 0 <= k && k < #i ==> schemas[k].Pattern != nil && len(schemas[k].Retentions) >= 1 && schemas[k].Retentions[0] != nil && schemas[k].Retentions[0].secondsPerPoint != 0
+//@     invariant[default_seen] defaultFound ==> (exists k int :: 0 <= k && k < #i && schemas[k].Pattern.src == ".*")
+//@   loop 2:
+//@     invariant[idx2] 0 <= #i && #i <= len(#s)
+//@     invariant[nonzero_so_far] forall r int :: 0 <= r && r < #i ==> #s[r] != nil && #s[r].secondsPerPoint != 0
